@@ -202,7 +202,7 @@ def c05(tier, seed):
 def q_discover(h, s, K=2, big_endian=False, frame_n=576):
     nm = "blk_discover_h%d_s%d%s%s" % (h, s, "_be" if big_endian else "", "" if frame_n == 576 else "_%d" % frame_n)
     return blkq(nm, "h_discover", live=["answerHello"], K=K, frame_n=frame_n, defines=["HOSTLEN=%d" % h, "SSIDLEN=%d" % s], unwind=max(K + 3, 34),
-                no_std_checks=True, big_endian=big_endian, timeout=600,
+                no_std_checks=True, big_endian=big_endian, timeout=600, backends=("minisat",),
                 bounds={"hostname length": h, "SSID length": s, "attributes": "MAC 2^48, flags 2^32, ifType/IPv4/speed 2^32, IPv6 2^128, name bytes, RSSI 2^8, rate 2^16, Wi-Fi on/off, BSSID ok/fail, each getter failing independently - all symbolic",
                         "Discover": "ToS 0/1, any addresses/generation/seq, from mapper or stranger", "byte order": "big-endian machine model" if big_endian else "little-endian machine model"},
                 desc="Discover class through real parseFrame/answerHello and all TLV writers: positional Hello oracle")
@@ -230,4 +230,37 @@ def c04(tier, seed):
         be = [(h, s) for h in LEN_EDGE for s in LEN_EDGE]
     qs += [q_discover(h, s) for (h, s) in pairs]
     qs += [q_discover(h, s, big_endian=True) for (h, s) in be]
+    qs.append(Query("c04_linux_getters", "c04_linuxport.c", "h_linux_getters", unwind=8, backends=("minisat", "cadical"), safety_for=("C01", "C04"),
+                    bounds={"network_interface_t": "every field symbolic (MAC 2^48, MTU/ifType/LinkSpeed/MediumType/flags 2^32)"},
+                    desc="os/linux/lltd_port.c getters vs the interface record: copy / conversion / bit mapping"))
+    return qs
+
+
+def q_emit_loop(frame_n=576, valid_kinds=True, K=2):
+    maxd = (frame_n - 34) // 14
+    rep = unreach("parseEmit"); rep["sendProbeMsg"] = "rec_sendProbeMsg"
+    return blkq("blk_emit_loop_%d%s" % (frame_n, "" if valid_kinds else "_anykind"), "h_emit_loop", K=K, frame_n=frame_n, replace=rep,
+                defines=["EMIT_VALID_KINDS"] if valid_kinds else [], unwind=maxd + 2, safety_for=("C01", "C06", "C18"),
+                bounds={"declared count": "0..0xFFFF", "descriptors": "all %d slots of the frame symbolic%s" % (maxd, ", kinds in {0,1}" if valid_kinds else ", any kind byte")},
+                desc="real parseFrame+parseEmit descriptor walk with recording sendProbeMsg stub; pointer checks on every descriptor read")
+
+
+def q_emit_send(K=2):
+    return blkq("blk_emit_send", "h_emit_send", K=K, replace={}, no_std_checks=False, safety_for=("C01", "C06", "C18"),
+                bounds={"arguments": "src/dst 2^48 each, pause 0..255, kind {0,1}, ack {0,1}; arbitrary record (mapper, seq)"},
+                desc="real sendProbeMsg alone: sleep(pause) -> Probe/Train(32 bytes) -> optional ACK; buffers released")
+
+
+def q_emit_full(n=3, K=2):
+    return blkq("blk_emit_full_n%d" % n, "h_emit_full", live=["parseEmit"], K=K, defines=["NMAX_FULL=%d" % n], unwind=max(n + 2, K + 3), no_std_checks=True,
+                bounds={"declared count": "1..%d" % n, "descriptors": "kinds {0,1}, any pause/src/dst"},
+                desc="undecomposed Emit path through real parseFrame/parseEmit/sendProbeMsg: ordered (sleep, send) events and final ACK")
+
+
+@prop("C06", ["Emit issued by the active mapper or while none is active (property's domain); descriptor kinds in {0,1} in the functional queries (other kinds: safety only); transmit succeeds",
+              "decomposition: loop query guarantees the argument/ack relation that the single-call query assumes (both over real code)"])
+def c06(tier, seed):
+    qs = [q_emit_loop(576), q_emit_send(), q_emit_full(3)]
+    if tier == "thorough":
+        qs += [q_emit_loop(1500), q_emit_full(12)]
     return qs
